@@ -1671,7 +1671,7 @@ pub mod verif_hooks {
     /// Returns (used_blobs, unused_blobs, used_size, unused_size).
     pub fn pack_info(
         blobs: Vec<IndexBlob>,
-        used_ids: &mut BTreeMap<BlobId, u8>,
+        used_ids: &mut BTreeMap<(BlobType, BlobId), u8>,
     ) -> (u16, u16, u32, u32) {
         let pack = PrunePack::from_index_pack_unmarked(IndexPack {
             id: PackId::default(),
@@ -1827,11 +1827,11 @@ pub mod verif_hooks {
         })
     }
 
-    fn make_used(used: Vec<(BlobType, BlobId)>) -> BTreeMap<BlobId, u8> {
-        used.into_iter().map(|(_, id)| (id, 0)).collect()
+    fn make_used(used: Vec<(BlobType, BlobId)>) -> BTreeMap<(BlobType, BlobId), u8> {
+        used.into_iter().map(|k| (k, 0)).collect()
     }
 
     fn used_keys(plan: &PrunePlan) -> Vec<(BlobType, BlobId)> {
-        plan.used_ids.keys().map(|id| (BlobType::Data, *id)).collect()
+        plan.used_ids.keys().copied().collect()
     }
 }
